@@ -32,7 +32,7 @@ SEMANTIC_ASSUMPTIONS = [
     "S8 implicit exceptions modelled: KeyError, IndexError, ZeroDivisionError, ValueError(unpack/remove/index), StopIteration; "
     "TypeError/AttributeError from ill-typed operands are not modelled except where a contract declares them; MemoryError/RecursionError not modelled",
     "S12 termination is not proved (partial correctness)",
-    "parameter sorts are taken from the source annotations / sidecar sort table and trusted (audited at run time by the bounded stand-in)",
+    "parameter and attribute sorts are taken from the source annotations / the sidecar sort table and trusted (not checked at run time)",
 ]
 
 
